@@ -1247,5 +1247,31 @@ theorem claimCheck_sound (cfg : WriterCfg) (m : MeshVal α) (bl : List (Built ×
   · simp at h
 
 
+/-! ## the vector claim scan: a reader with an absent component is not built -/
+
+theorem allSome_none {β : Type} : ∀ (l : List (Option β)) (k : Nat), l[k]? = some none → allSome l = none := by
+  intro l
+  induction l with
+  | nil => intro k h; simp at h
+  | cons x l ih =>
+    intro k h
+    cases k with
+    | zero => simp at h; subst h; rfl
+    | succ k =>
+      have := ih k (by simpa using h)
+      cases x <;> simp [allSome, this]
+
+/-- THE VECTOR CLAIM SCAN, other direction: a reader one of whose component names is absent from the header is not built
+(under the same guards: distinct names, one scalar type among the reader's properties that are present) -/
+theorem buildVec_none (binary : Bool) (props : List (Bytes × SType)) (attr : Bytes) (names : List Bytes)
+    (hn : names.Nodup) (hnd : (props.map (·.1)).Nodup) (t : SType) (huni : ∀ p ∈ props, p.1 ∈ names → p.2 = t)
+    (k : Nat) (hk : k < names.length) (habs : ∀ p ∈ props, p.1 ≠ names[k]) :
+    buildVec binary props attr names = none := by
+  obtain ⟨_, _, h3, _, _⟩ := scan_fold binary names hn t props ⟨names.map (fun _ => none), none, 0⟩ hnd huni (.inl rfl) (by simp)
+  have := (h3 k hk).2 habs
+  simp only [List.getElem?_map, List.getElem?_eq_getElem hk, Option.map_some] at this
+  simp only [buildVec, allSome_none _ k this]
+
+
 end PlyCompose
 end PolyVerif
